@@ -85,6 +85,30 @@ class LocalRenamer(ast.NodeTransformer):
         return node
 
 
+class AddLogging(ast.NodeTransformer):
+    """Insert a harmless statement at the top of every function body (after the docstring)."""
+
+    def visit_FunctionDef(self, node):
+        self.generic_visit(node)
+        stmt = ast.parse("_audit_marker = None").body[0]
+        i = 1 if (node.body and isinstance(node.body[0], ast.Expr) and isinstance(node.body[0].value, ast.Constant) and isinstance(node.body[0].value.value, str)) else 0
+        node.body.insert(i, stmt)
+        return node
+
+    visit_AsyncFunctionDef = visit_FunctionDef
+
+
+class SqlWhitespace(ast.NodeTransformer):
+    """Collapse runs of whitespace inside SQL string constants (line-comment free ones only)."""
+
+    def visit_Constant(self, node):
+        import re
+
+        if isinstance(node.value, str) and re.search(r"\b(SELECT|UPDATE|INSERT|DELETE|CREATE)\b", node.value) and "--" not in node.value:
+            return ast.copy_location(ast.Constant(value=re.sub(r"[ \t]*\n[ \t]*", "\n", node.value)), node)
+        return node
+
+
 def make_variant(kind, dst):
     core = dst / "stepup" / "core"
     core.mkdir(parents=True)
@@ -93,6 +117,12 @@ def make_variant(kind, dst):
         tree = ast.parse(text)
         if kind == "rename-locals":
             tree = LocalRenamer().visit(tree)
+            ast.fix_missing_locations(tree)
+        elif kind == "add-statement":
+            tree = AddLogging().visit(tree)
+            ast.fix_missing_locations(tree)
+        elif kind == "sql-whitespace":
+            tree = SqlWhitespace().visit(tree)
             ast.fix_missing_locations(tree)
         (core / p.name).write_text(ast.unparse(tree) + "\n")
     # the variant must still compile
@@ -109,7 +139,7 @@ def run_check(args):
 
 
 def main():
-    kinds = sys.argv[1:] or ["reformat", "rename-locals"]
+    kinds = sys.argv[1:] or ["reformat", "rename-locals", "add-statement", "sql-whitespace"]
     tmp = pathlib.Path(tempfile.mkdtemp(prefix="verif_benign_"))
     try:
         for kind in kinds:
